@@ -9,6 +9,7 @@ R2 forward-seek shortcut (T-cmp rows 13, 14): after next returned K every head i
    re-sought iff sign(target, head) = GT.
 R3 seek clears `finished` and `pending` first and returns success on every path.
 R5 heap discipline (rules/heaprule.py): the heap rebuilt by a seek (heap_heapify) and maintained by pop / replace is a heap for every ordering of up to 5 (6 thorough) heads.
+R6 dispatch wiring (rules/dispatch.py): the mtbl_iter / mtbl_source function tables are registered, called (own closure, own slot, parameters forwarded in order) and filled at every construction site without cross-wiring slots of equal signature.
 """
 from .common import *
 
@@ -221,3 +222,7 @@ def run(ctx, res):
     # ---- heap discipline ----------------------------------------------------------------------
     from . import heaprule
     heaprule.check(ctx, res, "C05.R5")
+
+    # ---- dispatch wiring --------------------------------------------------------------------------
+    from . import dispatch
+    dispatch.check(ctx, res, "C05.R6")
